@@ -25,6 +25,10 @@ CFG = {
         "linked lists are modelled as the chain sequence + cached size with positional cursors: pointer-level states in which first/last "
         "disagree with the chain are not representable; the tie (Values/Get/backward traversals after every mutator) is what detects them",
     ],
-    "modelled": ["bcomparator.Sort / sort.Sort (as insertion sort)", "reflect.DeepEqual on int (as =)", "Go append/make zero-filling (repeat 0)"],
+    "modelled": ["user callbacks watching the list mid-operation (Sort comparators, Each/Map/Select/Any/All/Find) and comparators that panic: "
+                 "judged in Coq against the documented behaviour of the unmodified code (Check.v SDuring/SSeen/SSortPanic: linked-list Sort works on a copy, "
+                 "array-list Sort permutes in place, iterations are read-only), no theorem",
+                 "a call that does not return (watchdog, 10 s) is a violation decided by the harness",
+                 "bcomparator.Sort / sort.Sort (as insertion sort)", "reflect.DeepEqual on int (as =)", "Go append/make zero-filling (repeat 0)"],
     "assumptions": ["element type int with the built-in int comparator", "fewer than 2^24 elements (float32 capacity arithmetic exact)"],
 }
